@@ -11,7 +11,7 @@ def harness_files(tier, seed):
 META = dict(
     bounds="rejected values among the generic depth-1 and type-directed near-valid values of props/shared.py (up to 3 elements / keys, "
            "depth 2; symbolic kinds and leaves)",
-    configs="33 types: every composite converter (struct, fixed and variadic tuples, sequences, mappings, n-d nesting, unions, "
+    configs="34 types: every composite converter (struct, fixed and variadic tuples, sequences, mappings, n-d nesting, unions, "
             "conditions, enums, dataclasses in struct and tuple layout incl. aliases/duplicates/allow_extra/hooks/init=False, nested "
             "dataclasses) over element types int, float, str, Optional[str], List[int], Positive int, dataclasses",
     stubs=[],
